@@ -1,0 +1,36 @@
+//go:build verif
+
+package txwatcher
+
+import "time"
+
+// This file is only compiled with the `verif` build tag: synchronous entry points for the verification
+// harness in /verif.
+
+// VerifNotify hands a block height to the observation loop of one swap, as StartWatchingTxs does for every
+// new block, and reports whether the loop took it (false: no loop is registered for the swap any more).
+func (l *BlockchainRpcTxWatcher) VerifNotify(swapId string, height uint32) bool {
+	for i := 0; i < 50; i++ {
+		l.Lock()
+		info, ok := l.observerLoopList[swapId]
+		l.Unlock()
+		if !ok {
+			return false
+		}
+		select {
+		case info.blockChan <- height:
+			return true
+		case <-time.After(20 * time.Millisecond):
+		}
+	}
+	return false
+}
+
+// VerifWatching reports whether a confirmation loop / a CSV watch is registered for the swap.
+func (l *BlockchainRpcTxWatcher) VerifWatching(swapId string) (bool, bool) {
+	l.Lock()
+	defer l.Unlock()
+	_, a := l.observerLoopList[swapId]
+	_, b := l.csvtxWatchList[swapId]
+	return a, b
+}
